@@ -33,6 +33,7 @@ FIXED = [
  ("C12", "sync/unsynced-above-limit-at-idle", "fix: restoring the active blob requests", "close the active blob, delete into it (marker appended to the closed blob), restore it: the active blob carries un-synced bytes above the limit and nothing requests a sync (found by a seed sweep of the quick tier)"),
  ("C14", "close/err", "fix: an index loaded back from disk switches", "a delete into a closed blob (or a restore) dropped while the index is loaded back leaves the index in memory with the old, off-loaded filter: every later dump of that blob fails ('Filter buffer offloaded, can't serialize') - silently in the background, and as an error of close() since close performs pending dumps"),
  ("C14", "cancel/close_active/after-drop/read/mismatch", "fix: closing the active blob takes the blob list lock", "try_close_active_blob dropped at the lock of the closed-blob list, which it awaited AFTER taking the active blob out of its slot (the lock is free, but a runtime resource may answer Pending when the task's cooperative budget is used up): the blob object is dropped, its acknowledged records answer NotFound until restart"),
+ ("C03", "panic", "fix: a tree offset beyond the end of an index file", "BPTreeFileIndex::read_root computes file size - tree offset before any validation: an index file with an intact header whose tree meta was never written (garbage offsets) makes start-up panic with an arithmetic overflow in builds with overflow checks (the default dev profile); without them the subtraction wraps and the read happens to fail"),
  ("C12", "sync/explicit-fsyncdata-noop", "fix: Storage::fsyncdata always", "explicit fsyncdata() issues no sync below the dirty-byte limit"),
 ]
 OPEN = [
@@ -40,6 +41,7 @@ OPEN = [
  ("C14", "cancel/delete-partially-applied", "a delete future dropped between delete_in_active and the end of delete_in_closed has appended its marker to the active blob (and possibly some closed blobs) but not to the remaining closed blobs in which the key is live; a later delete(only_if_presented) or a restart makes the difference observable"),
  ("C14", "cancel/create-leaves-partial-blob", "dropping try_create_active_blob (or a write/delete that has to create the active blob) before the blob header is written leaves an empty or header-less *.blob file; the next start quarantines it (corrupted_blobs_count = 1) although no data is involved"),
  ("C11", "fault/failed-write-resurrected-after-index-regeneration", "a write that returned Err after its header (or the whole record) had reached the blob file is indexed by the next start-up scan when the index file is missing/stale and data validation is off: contains/read_all list it although it was reported as failed (read of its data fails the checksum unless the whole record was written)"),
+ ("C03", "restart/index-content-altered-at-same-length", "an index file of a closed blob that has its original length and an intact header, but whose later bytes differ (cut inside the leaf / node / filter region and filled up to the old length again with zeros or other bytes - the tail of a half-written file whose size was recorded but whose data never reached the disk), passes every start-up check: the written flag, the exact-length check and the header fields are all right, and no checksum covers the sections of an index that is used from disk (the header hash is verified only when an index is loaded into memory). After the restart keys of that blob answer NotFound or every read of them fails with a header-checksum error"),
  ("C16", "validate_blob/accepts-flip/blob-header-version", "validate_blob ignores the blob header's version field (validate_without_version): any bit flip in bytes 8..12 of a blob is accepted"),
  ("C16", "validate_blob/accepts-flip/blob-header-flags", "no check covers the blob header's flags field: any bit flip in bytes 12..20 of a blob is accepted by validate_blob (and by the storage)"),
  ("C16", "validate_blob/accepts-flip/meta", "record metadata bytes are covered by no checksum: a flipped byte inside a record's meta section is accepted whenever bincode still decodes the map"),
